@@ -214,6 +214,23 @@ theorem wvdate_forms (d : DateTime) (h : d.Valid) (z : UInt8) (hz : isZone z = t
       · subst hZ; exact encodeWvDate_basic_utc d
       · rw [encodeWvDate_basic d h z hz hZ]; simp [hy]
 
+/-- Observation, outside the property (the text is not zone-designated): a date-time *without* zone
+    designator is sent with zone octet 0, which the parser prints as `Z` — it comes back as the same wall-clock
+    fields marked UTC (the parser's comment calls a zero zone octet "a bug in the WBXML document"). -/
+theorem wvdate_absent_zone_reads_utc (d : DateTime) (h : d.Valid) (hy : d.year ≤ 4095) :
+    encodeWvDate (basic d none) = .ok (.opaque (wvPack d.year d.month d.day d.hour d.minute d.second 0)) ∧
+    decodeWvDate (wvPack d.year d.month d.day d.hour d.minute d.second 0) = .ok (basicShort d (some 0x5A)) := by
+  have hv := h
+  obtain ⟨_, _, hmo, _, hd2, hh, hm, hs⟩ := h
+  have hd31 := daysInMonth_le d.year d.month
+  constructor
+  · rw [encodeWvDate_basic_none d hv]; simp [show ¬ d.year > 4095 by omega]
+  · rw [decodeWvDate_wvPack _ _ _ _ _ _ 0 hy (by omega) (by omega) (by omega) (by omega) (by omega)]
+    have := wvDateText_valid d hv 0x5A (by decide)
+    unfold wvDateText at this ⊢
+    have zt : wvZoneText 0 = wvZoneText 0x5A := by decide
+    rw [zt]; exact congrArg _ this
+
 example : isZone 0x41 = true ∧ isZone 0x5A = true ∧ isZone 0x4A = false := by decide
 
 /-! ## Binary content: opaque in WBXML, base64 in XML -/
